@@ -474,6 +474,14 @@ func genSite(r *core.Rand) *script {
 			sc.tup[pre+base] = vals
 		}
 	}
+	// http.TrailerPrefix keys exist in RESPONSE header maps only (a request's trailers are in r.Trailer)
+	for _, t := range []hdrTab{sc.tin, sc.tadd} {
+		for k := range t {
+			if strings.Contains(k, ":") {
+				delete(t, k)
+			}
+		}
+	}
 	for _, t := range []hdrTab{sc.tin, sc.tadd, sc.tset, sc.tup} {
 		for k := range t {
 			if !validText(k) {
